@@ -21,8 +21,14 @@ func VerifC09_Propagation() {
 	_, err := w.repo.AddCRL(loc, chainsOf(c0))
 	verifrt.Assert(err == nil, "load ok")
 	probe := sym("probe")
-	fault := verifrt.Choose(3)
+	fault := verifrt.Choose(4)
 	switch fault {
+	case 3: // a refresh whose store swap fails (up to two injected storage faults): "missing store after a failed swap"
+		servers[url1] = &server{up: true, crl: newCRL("L2", "CN=I1", s)}
+		verifrt.FaultBudget = 2
+		verifrt.CloseFaults = true
+		_ = w.repo.UpdateCRL(loc, chainsOf(c0))
+		verifrt.FaultBudget = 0
 	case 0:
 		verifrt.GetFaults = true
 	case 1: // store closed by a concurrent shutdown of the store (entry still registered)
@@ -42,6 +48,11 @@ func VerifC09_Propagation() {
 	st, ierr := w.repo.IsRevoked(cert("CN=I1", probe, url1), l)
 	isListed := probe.Cmp(s) == 0
 	switch fault {
+	case 3:
+		verifrt.Reach("failed-swap")
+		if isListed {
+			verifrt.Assert(ierr != nil || (st != nil && st.Revoked), "after a failed swap a listed certificate is denied: revoked or an error, never 'not revoked'")
+		}
 	case 0:
 		verifrt.Reach("read-fault")
 		if ierr == nil {
